@@ -807,6 +807,11 @@ pub struct ERefRun {
 pub fn reference_enc(enc: &'static Encoding, repl: bool, form16: bool, text: &[Unit]) -> ERefRun {
     let (s8, b8) = text_to_utf8(text);
     let (s16, b16) = text_to_utf16(text);
+    // guarded copies (deterministic bytes behind the source)
+    let g8 = Guard8::from(s8.as_bytes(), 0);
+    let s8: &str = std::str::from_utf8(g8.slice()).expect("harness: valid UTF-8");
+    let g16 = Guard16::from(&s16, 0);
+    let s16: &[u16] = g16.slice();
     let bounds = if form16 { &b16 } else { &b8 };
     let total = if form16 { s16.len() } else { s8.len() };
     let mut r = ERefRun { out: Vec::new(), had_unmappables: false, unmappables: Vec::new(), ok: true, note: String::new() };
